@@ -13,6 +13,8 @@ const GOTO: usize = 1;
 const LOOP: usize = 2;
 const LABEL: usize = 3;
 const NATOMS: usize = 4;
+/// random trees only: an assignment to the parameter (E530 where it is analysed)
+const BADASSIGN: usize = 4;
 
 #[derive(Default)]
 struct Expect
@@ -66,6 +68,9 @@ fn check_stmt(st: &Node, place: Place, e: &mut Expect)
 				Place::FunctionBody => e.codes.push(801),
 			}
 		}
+		// another analysis pass rejects this one; as a naked branch it is E840
+		// and nothing else (see check_branch)
+		Node::Atom(BADASSIGN) => e.codes.push(530),
 		Node::Atom(_) => (),
 		Node::Block(b) => check_seq(b, true, e),
 		Node::If(br) => check_branch(br, false, e),
@@ -114,6 +119,7 @@ fn render(body: &[Node]) -> String
 		ASSIGN => "x = x + 1;".to_string(),
 		GOTO => "goto end;".to_string(),
 		LOOP => "loop;".to_string(),
+		BADASSIGN => "p = 1;".to_string(),
 		_ =>
 		{
 			let n = counter.get();
@@ -301,7 +307,11 @@ impl Stream for RandomTrees
 	{
 		let mut out = CaseOut::default();
 		let mut budget = 40;
-		let body = treegen::random_seq(c, grammar(), &mut budget, 6, 10);
+		let g = Grammar {
+			atoms: NATOMS + 1,
+			naked_branches: true,
+		};
+		let body = treegen::random_seq(c, g, &mut budget, 6, 10);
 		judge(&body, ctx, &mut out);
 		out.class(format!("depth:{}", treegen::depth(&body).min(7)));
 		out
@@ -316,7 +326,7 @@ impl Check for C06
 	}
 	fn rule(&self) -> String
 	{
-		"statement trees over {assignment, goto, loop, label, block, if <branch>, if <branch> else <branch>} where a branch may be ANY statement (naked branches, else-if chains): (a) every tree of <= 6 (quick) / <= 7 (thorough) nodes and nesting <= 4 / <= 5 (exhaustive); (b) random trees of up to 40 nodes, depth 6. Oracle: a recursive reference predicate for loop/branch placement gives the exact multiset of E800/E801/E840 and, for accepted programs, of L1800; verdict, sorted Errors::codes() and Compiler::take_lints() codes must equal it. Non-trivial: the tree contains `loop` or a non-block branch; distinct by tree.".into()
+		"statement trees over {assignment, goto, loop, label, block, if <branch>, if <branch> else <branch>} where a branch may be ANY statement (naked branches, else-if chains): (a) every tree of <= 6 (quick) / <= 7 (thorough) nodes and nesting <= 4 / <= 5 (exhaustive); (b) random trees of up to 40 nodes, depth 6, which also contain a statement that a later analysis pass rejects (`p = 1;` for the parameter, E530): braced it is E530, as a brace-less branch it is E840 and nothing else. Oracle: a recursive reference predicate for loop/branch placement gives the exact multiset of E800/E801/E840 and, for accepted programs, of L1800; verdict, sorted Errors::codes() and Compiler::take_lints() codes must equal it. Non-trivial: the tree contains `loop` or a non-block branch; distinct by tree.".into()
 	}
 	fn assumptions(&self) -> Vec<String>
 	{
